@@ -145,6 +145,56 @@ pub fn run(ctx: &Ctx, st: &mut Stats) {
             st.count(&format!("hist.lat_band.{}", lat_band(c.site.lat.0)));
         }
     }
+    // existence-boundary seeking: bisect the latitude down to ADJACENT f64 values across "twilight reported / not
+    // reported". At the last latitude where it is reported the library's own result says how far from solar midnight
+    // (Dhuhr -+ 12 h; or, in polar night, from solar noon) the Sun reaches the defining depression; if that is more
+    // than a minute, the Sun goes on to sink below (rise above) the depression by > 1e-5 deg there, and cannot fail to reach it one ulp (1e-14 deg) further on: the
+    // "Invalid" at the adjacent latitude withholds an event that occurs. (Independent of the ephemeris' accuracy.)
+    let nb = ctx.quota(4_000, 200_000);
+    let mut rb = Rng::new(ctx.seed, 602, ctx.shard);
+    for _ in 0..nb {
+        let mut c = gen_case(&mut rb);
+        c.weather = None;
+        c.p.mode = 0;
+        if rb.chance(0.5) {
+            // named methods on their own (the deepest named twilights graze at the edge of the mid-latitudes)
+            c.p.fajr_angle = None;
+            c.p.isha_angle = None;
+        }
+        c.site.gmt = X((c.site.lon.0 / 15.0).round().clamp(-12.0, 12.0));
+        let pr = *rb.pick(&[Prayer::Fajr, Prayer::Isha, Prayer::Imsaak]);
+        let p = c.p.build();
+        let date = s2d(&c.date);
+        let site = c.site;
+        let at = |st: &mut Stats, la: f64| -> Option<Res> {
+            let mut s2 = site;
+            s2.lat = X(la);
+            call(st, &p, s2.loc(), date, None).ok()
+        };
+        let exists = |st: &mut Stats, la: f64| -> bool { at(st, la).map(|r| r[&pr].is_ok()).unwrap_or(false) };
+        let la0 = rb.range(-35.0, 35.0);
+        let la1 = if rb.chance(0.5) { 89.0 } else { -89.0 };
+        if !exists(st, la0) || exists(st, la1) {
+            st.count("boundary_seeks.no_transition_between_endpoints");
+            continue;
+        }
+        let (a, b) = super::bisect(la0, la1, |la| exists(st, la));
+        let Some(ra) = at(st, a) else { continue };
+        let (Ok(t), Ok(dh)) = (ra[&pr], ra[&Prayer::Dhuhr]) else { continue };
+        // distance of the reported time from solar midnight, seconds
+        // (or from solar noon: in polar night the Sun never gets UP to the depression and the boundary is at H = 0)
+        let od = off(secs(&t), secs(&dh)).abs();
+        let gap = od.min(43200.0 - od);
+        st.count(&format!("boundary_seeks.{pr:?}"));
+        st.margin("existence_boundary.last_reported_twilight_to_solar_midnight_or_noon_s", gap, 60.0, || json!({"site": site, "last_latitude_with_event": a, "first_latitude_without": b, "date": c.date, "prayer": format!("{pr:?}")}));
+        st.decided += 1;
+        st.nontrivial_key(hash64(&format!("b{:?}{}", c, a)));
+        if gap.abs() > 60.0 {
+            let mut vc = c.clone();
+            vc.site.lat = X(b);
+            st.violate("withheld_existing_event", &vc, json!({"prayer": format!("{pr:?}"), "why": "at the adjacent f64 latitude the library itself reports the Sun reaching the defining depression this many seconds away from solar midnight, so it sinks deeper than the depression there and must reach it here as well", "adjacent_latitude_with_event": a, "its_result": res_json(&ra), "seconds_from_solar_midnight_or_noon": gap}));
+        }
+    }
     st.extra.insert("rule".into(), json!("seeded random with half the mass on |lat| 45..89.5, policy None, angle methods; decided = at least one prayer outside the 0.05 deg exemption band under the declination at start/middle/end of the civil day; non-trivial = decided cases in which at least one prayer was observed Invalid; distinct by input hash"));
     st.note("Asr's defining altitude is arccot(k + tan|lat-dec|) evaluated as atan(1/x): in polar night (|lat-dec|>90) this is negative and the library reports an Asr; the oracle uses the same convention (the property does not define Asr when there is no noon shadow).");
 }
